@@ -53,7 +53,7 @@ class Collector:
 
     def violation(self, rid, key, loc, msg, detail=None):
         """key: '<def-path>|<construct>' (no line numbers) — the rule id is prefixed here"""
-        full = "%s|%s" % (rid, key)
+        full = ("%s|%s" % (rid, key)).replace(" ", "")
         self.instance(rid, loc, key, False, msg)
         if any(v["key"] == full for v in self.violations):
             return  # one report per (rule, construct); further paths to the same construct add nothing
